@@ -13,6 +13,7 @@ CONSTANTS MaxMsgs,      \* publishes per behaviour
           MaxPauses,    \* PauseStream calls per behaviour
           MaxRestarts,  \* server restarts per behaviour
           OccSet, BatchSet, PathSet, Kinds, Pols,
+          SrcSet,       \* where the stream's setting comes from: subset of {"request", "server", "override"}
           Vias,         \* who publishes: subset of {"api", "subj", "nats", "natsq", "plain"}
           MaxHolds,     \* PublishAsync publishes whose in-flight count is a step of its own
           MaxSnaps,     \* Raft snapshots per behaviour (between waves)
@@ -29,7 +30,7 @@ mcvars == <<vars, last, budgets>>
 SentBy(p) == Cardinality({id \in Ids : msgs[id].p = p})
 
 MCInit ==
-  /\ cfg \in [occ : OccSet, batch : BatchSet, path : PathSet]
+  /\ cfg \in [occ : OccSet, batch : BatchSet, path : PathSet, src : SrcSet]
   /\ msgs = <<>> /\ net = {} /\ chan = <<>> /\ log = <<>> /\ ackq = {}
   /\ clk = 1 /\ known = [p \in Pubs |-> 0] /\ paused = FALSE
   /\ eocc = cfg.occ /\ snap \in Snap0Set /\ infl = [p \in Pubs |-> 0] /\ unc = {}
